@@ -396,7 +396,7 @@ Case decode(const std::string& text) {
             c.audio_on = (unsigned)H(1);
             c.audio_words = (unsigned)H(2) % 17;
         } else if (t[0] == "n") {
-            c.n = (uint32_t)std::min<uint64_t>(H(1), 20000);
+            c.n = (uint32_t)std::min<uint64_t>(H(1), 300000);
             c.slice_seed = H(2);
         } else if (t[0] == "event") {
             Event e;
@@ -459,6 +459,8 @@ Case build(uint64_t seed) {
     c.audio_words = (unsigned)(s.chance(1, 2) ? s.below(17) : 0);
     c.audio_on = s.chance(1, 2);
     c.n = (uint32_t)(s.chance(1, 3) ? 1 + s.below(200) : (s.chance(1, 2) ? 1 + s.below(5000) : 1 + s.below(20000)));
+    if (s.chance(1, 12))
+        c.n = (uint32_t)(66000 + s.below(140000)); // slices longer than 2^16 cycles (the idle loop makes them cheap)
     unsigned ne = (unsigned)s.below(5);
     for (unsigned i = 0; i < ne; ++i) {
         Event e;
@@ -628,6 +630,8 @@ vf::Result check(const Case& c) {
         vf::klass("idle self-branch");
     if (ones)
         vf::klass("compared against n x Run(1)");
+    if (c.n > 65536)
+        vf::klass("budget above 2^16 cycles");
     if (c.tm[0].on && c.tm[0].start >= c.fillers.size() && c.tm[0].start <= c.fillers.size() + 4)
         vf::klass("timer0 fires around the first idle cycle");
     if (c.tm[0].on && c.tm[0].mode == 1 && c.tm[0].start <= 1)
